@@ -44,15 +44,26 @@ Fixpoint run_obs (o : order_kind) (s : kmap) (ops : list kop) : list string :=
 Definition run_ocase (c : scase) : string := join " | " (run_obs (s_order c) [] (s_ops c)).
 
 (* enfold cache: initial backend content, populate (or not), then ops with fault flags *)
-Record ecase : Type := {
-  e_ob : order_kind; e_init : list (pstr * N); e_populate : option Z; e_ops : list (kop * bool) }.
+(* a candidate search (find_for_inquiry without a checker) is shown as the key-sorted list: backends differ in the order
+   in which they hand out candidates *)
+Fixpoint insert_kv (kv : pstr * N) (l : list (pstr * N)) : list (pstr * N) :=
+  match l with
+  | [] => [kv]
+  | x :: r => if pstr_ltb (fst kv) (fst x) then kv :: l else x :: insert_kv kv r
+  end.
+Definition sort_kv (l : list (pstr * N)) : list (pstr * N) := fold_right insert_kv [] l.
+Definition show_find (x : out pstr N) : string :=
+  match x with OList l => "find:" ++ show_kmap (sort_kv l) | _ => show_out x end.
 
-Fixpoint run_enf (ob : order_kind) (st : enfold pstr N) (ops : list (kop * bool)) : list string :=
+Record ecase : Type := {
+  e_ob : order_kind; e_init : list (pstr * N); e_populate : option Z; e_ops : list (kop * bool * bool) }.
+
+Fixpoint run_enf (ob : order_kind) (st : enfold pstr N) (ops : list (kop * bool * bool)) : list string :=
   match ops with
   | [] => []
-  | (p, fault) :: r =>
+  | (p, fault, as_find) :: r =>
       let (st', x) := enfold_step pstr N pstr_eqb pstr_ltb ob Insertion st p fault in
-      (show_out x ++ " r=" ++ show_bool (enfold_reads_backend pstr_eqb st p) ++
+      ((if as_find then show_find x else show_out x) ++ " r=" ++ show_bool (enfold_reads_backend pstr_eqb st p) ++
        " b=" ++ show_kmap (e_backend pstr N st') ++ " c=" ++ show_kmap (e_cache pstr N st'))
         :: run_enf ob st' r
   end.
